@@ -230,13 +230,6 @@ theorem accepted_unsubscribed_silent (ev : List Bool) (rate : List Nat) (dflt : 
         show (jp.close.subs.modify k _)[k]? = _
         rw [List.getElem?_modify_eq, hs]; rfl, rfl⟩
 
-theorem ok_prefix {ev : List Bool} {rate : List Nat} {dflt : List (Option Val)} {pre rest : List Item}
-    (h : ok ev rate dflt (pre ++ rest) = true) :
-    (rest.foldl Mon.step (pre.foldl Mon.step (Mon.init ev rate dflt))).ok = true := by
-  unfold ok at h
-  have := close_ok_mono _ h
-  rwa [List.foldl_append] at this
-
 /-- **What acceptance means for the event keys** (any trace): two consecutive NOTIFYs to SID k (nothing sent to k and no
     key preset of k in between) carry keys s₁ and s₂ = s₁ + 1, with 2^32−1 followed by 1. -/
 theorem accepted_keys_consecutive (ev : List Bool) (rate : List Nat) (dflt : List (Option Val))
